@@ -241,7 +241,7 @@ def check(ctx, src):
                 ctx.decide("R-EXPR-STORE", f"{m.rel}|{q}|{norm(n)[:60]}", bool(resets),
                            f"`{norm(n)[:70]}` replaces the expression of a Result that still carries the temp_variables of the sub-form it was compiled from, and they are never cleared: "
                            "`(setv x <this form>)` renames that temporary to x and throws this expression (and the sub-forms compiled into it) away", m.rel, n.lineno,
-                           witness="(setv r (<form> (if c (do (g) a) b) ...)): the rest of the form is never evaluated", robust=True)
+                           witness="(setv r (<form> (if c (do (g) a) b) ...)): the rest of the form is never evaluated", local=True)
 
     # --- recursive calls: a defaulted parameter that the function uses must be handed on, or used on the way to the call
     for m in (comp.rm, comp.cp, comp.sc):
